@@ -6,6 +6,33 @@ props = [json.loads(l) for l in open(os.path.join(ROOT, "properties.jsonl"))]
 
 # id -> (category, technique, level text, level note, design ref)
 CHECKS = {
+ "C01": ("exploration", "proptest-generated hostile byte streams x option sets through the real reader thread (builds with and without overflow checks) and the built CLI (dev + release), sentinel-frame oracle; shrunk replays",
+         "generated-input search for panics, overflow, early stop and non-zero exit; bounded sense of termination",
+         "watchdog expiry = inconclusive; -u/-d drawn from small sets", "DESIGN.md §6 C01"),
+ "C02": ("exploration", "proptest-generated digit strings/decorations + deterministic digit-count sweep against a reference acceptance predicate; table-level and get_message-level decoration invariance",
+         "generated lines decide the iff (count, DF/length, parity) and decoration invariance on the aircraft table",
+         "hex digit = ASCII 0-9a-fA-F; reference CRC-24", "DESIGN.md §6 C02"),
+ "C03": ("exploration", "address sweep (2^22 quick / 2^24 thorough per format) against an independent CRC-24 + proptest interleaved histories with full-table before/after diff",
+         "round-trip builder->get_icao for enumerated addresses and generated payloads; history invariant 'only the addressed row may change'",
+         "reference CRC-24; HashMap key uniqueness checked as row.icao == key", "DESIGN.md §6 C03"),
+ "C04": ("exploration", "enumerated error patterns (all 1-/2-bit, all bursts <= 24) + proptest heavy patterns on generated intact squitters; reference CRC decides reject; batched table-unchanged oracle with bisection",
+         "every CRC-detectable corruption of generated squitters must leave the table bit-for-bit unchanged",
+         "reference CRC-24; DF11 rule = upper 17 remainder bits zero", "DESIGN.md §6 C04"),
+ "C05": ("exploration", "exhaustive altitude-code enumeration (8192 AC13 x DF4/DF20, 4096 AC12 x TC9-18) x proptest contexts against an independent Q-bit/Gillham decoder; Gillham class pinned by a known-findings table",
+         "complete over the code dimension, sampled over context (payload, address, path, options)",
+         "Gillham codes are a recorded known finding evaluated on canonical frames", "DESIGN.md §6 C05"),
+ "C06": ("exploration", "exhaustive identity-code enumeration (8192 x DF5/DF21) x proptest contexts against an octal-digit reference + proptest histories of foreign frames",
+         "complete over the code dimension; history invariant 'no other format changes the squawk'",
+         "identity code layout per Annex 10", "DESIGN.md §6 C06"),
+ "C07": ("exploration", "exhaustive position x character-code grid and TC x CA grid + proptest strings / BDS 2,0 gate states against a character-table reference, incl. the printed W and CALLSIGN cells",
+         "grid complete; contexts generated; rendered cells read from captured Planes::print output",
+         "blank vs empty callsign not distinguished", "DESIGN.md §6 C07"),
+ "C09": ("exploration", "axis-exhaustive velocity magnitudes, boundary grid, all vertical-rate codes + proptest combinations (thorough: full component grid) against a closed-form reference, create/update paths, -U/-R",
+         "closed-form oracle with stated float tolerance; no-information conventions checked",
+         "track of a zero vector unconstrained", "DESIGN.md §6 C09"),
+ "C13": ("exploration", "metamorphic: table(stream) == table(reference-accepted subsequence) over proptest mixed streams with junk lines (NUL, invalid UTF-8, lone CR, 64-256 KiB); in-process and through the CLI",
+         "both sides are real runs; the accepted subsequence is computed by the independent C02/C04 predicate",
+         "invalid-UTF-8 junk never carries an accepted digit count", "DESIGN.md §6 C13"),
  "C17": ("exploration", "exhaustive enumeration of all 2^24 addresses against an independent block table + proptest-generated addresses through the reader",
          "every address is run through the public constructor and compared with a reference allocation table; complete for the address dimension, sampled for the frame formats that carry the address through the reader",
          "trusts the reference table transcribed from Annex 10 (two disputed ranges accept either answer)", "DESIGN.md §6 C17"),
